@@ -1464,3 +1464,34 @@ Proof.
   - destruct (mu_step_run s); auto. contradiction.
   - destruct (mu_child_exit s o); auto. contradiction.
 Qed.
+
+(** ---- the recorded finding, formally: close() while the child never exits ---- *)
+Definition stuck_labels : list label :=
+  [Call 0 CStart; Step 0; Step 0; Step 0;            (* start(): initialized *)
+   Call 0 CRun; StepRun; StepRun; StepRun;           (* run(): the child is created, the run waits for it *)
+   Step 0; Step 0;                                   (* run() publishes `running` and returns *)
+   Call 1 CClose]%nat.                               (* close() from another task *)
+
+Definition stuck_state : state := run_labels (init_state 0 1 false false) stuck_labels.
+
+Lemma stuck_witness :
+  find_task (tasks stuck_state) 1%nat = Some (CClose, C_WaitRunFinished) /\
+  st_fsm stuck_state = Running /\ runt stuck_state = Some RT_WaitChild /\
+  alive stuck_state = 1%nat /\ pending_exit stuck_state = None /\
+  (forall t, step stuck_state (Step t) = stuck_state) /\
+  step stuck_state StepRun = stuck_state /\
+  (forall o, step stuck_state (ChildExit o) <> stuck_state) /\
+  (* once the child exits, the same close completes *)
+  (let s' := run_labels stuck_state [ChildExit OReturn; StepRun; StepRun; StepRun; StepRun;
+                                    Step 1; Step 1; Step 1]%nat in
+   st_fsm s' = Closed /\ tasks s' = [] /\ alive s' = 0%nat /\
+   hd_error (trace s') = Some (EvRet 1%nat CClose ROk)).
+Proof.
+  set (s := stuck_state). assert (Es : s = stuck_state) by reflexivity.
+  vm_compute in s. subst s. rewrite <- Es. clear Es.
+  repeat split; try reflexivity.
+  - intros t. simpl. unfold do_step. simpl find_task.
+    destruct (Nat.eqb t 1); reflexivity.
+  - intros o. simpl. unfold do_child_exit. simpl. intros H.
+    apply (f_equal alive) in H. simpl in H. discriminate.
+Qed.
